@@ -132,7 +132,16 @@ fn exec_payload_ex(ctx: &mut Ctx, l: usize, n: usize, head: &[u8], cuts: &[usize
     if n > l {
         ctx.rep.count("over_limit_cases");
         return match so.res {
-            RR::Parse(EK::SizeLimit(gl, gn)) if gl == l && gn == n => false,
+            RR::Parse(EK::SizeLimit(gl, gn)) if gl == l && gn == n => {
+                // turned away before any body byte is needed: nothing may have been queued that asks for the body
+                if r.conn.pending_write() {
+                    return fail(ctx, "over-limit-request-invited-to-send-body", "the request was rejected with the right numbers, but the connection queued output for it (an interim response asking for the body of a rejected request)".into());
+                }
+                if head.windows(7).any(|w| w.eq_ignore_ascii_case(b"expect:")) {
+                    ctx.rep.count("over_limit_cases_with_expect");
+                }
+                false
+            }
             other => fail(ctx, "over-limit-not-rejected-at-header-end", format!("the read completing the header block returned {:?} (deliveries {}), expected SizeLimitExceeded({}, {})", other, so.delivered.len(), l, n)),
         };
     }
@@ -433,7 +442,7 @@ pub fn run(ctx: &mut Ctx) {
 
 /// A server applies to each connection the limit configured when the client connected and
 /// answers the violation with a 400 that reports both numbers.
-fn server_case(ctx: &mut Ctx, l1: usize, l2: usize, n: usize) -> bool {
+fn server_case(ctx: &mut Ctx, l1: usize, l2: usize, n: usize, expect: bool) -> bool {
     use crate::model::{read_all_responses};
     use crate::sim::{PollOut, Sim};
     if !ctx.begin() {
@@ -441,13 +450,13 @@ fn server_case(ctx: &mut Ctx, l1: usize, l2: usize, n: usize) -> bool {
     }
     ctx.rep.evaluations += 1;
     ctx.rep.count("server_limit_cases");
-    let case = J::obj(vec![("family", J::s("server")), ("l1", J::u(l1 as u64)), ("l2", J::u(l2 as u64)), ("declared", J::u(n as u64))]);
+    let case = J::obj(vec![("family", J::s("server")), ("l1", J::u(l1 as u64)), ("l2", J::u(l2 as u64)), ("declared", J::u(n as u64)), ("expect", J::u(expect as u64))]);
     let mut sim = match Sim::new(false, None) {
         Ok(s) => s,
         Err(_) => return false,
     };
     let fail = |ctx: &mut Ctx, kind: &str, d: String| {
-        ctx.rep.violation(&format!("C04:server:{}", kind), format!("L1={} L2={} n={}: {}", l1, l2, n, d), case.clone());
+        ctx.rep.violation(&format!("C04:server:{}", kind), format!("L1={} L2={} n={}{}: {}", l1, l2, n, if expect { " with Expect: 100-continue" } else { "" }, d), case.clone());
         true
     };
     // client A is accepted under L1, then the limit changes (no connect pending), then B is accepted
@@ -460,7 +469,7 @@ fn server_case(ctx: &mut Ctx, l1: usize, l2: usize, n: usize) -> bool {
     let body: Vec<u8> = (0..n).map(|i| b'a' + (i % 26) as u8).collect();
     for c in 0..2usize {
         let tag = format!("/c{}g0r0", c);
-        let mut req = format!("PUT {} HTTP/1.1\r\nContent-Length: {}\r\n\r\n", tag, n).into_bytes();
+        let mut req = format!("PUT {} HTTP/1.1\r\n{}Content-Length: {}\r\n\r\n", tag, if expect { "Expect: 100-continue\r\n" } else { "" }, n).into_bytes();
         let limit = if c == 0 { l1 } else { l2 };
         if n <= limit {
             req.extend_from_slice(&body);
@@ -488,7 +497,8 @@ fn server_case(ctx: &mut Ctx, l1: usize, l2: usize, n: usize) -> bool {
             }
             let (resps, used, err) = read_all_responses(&g.recv);
             if err.is_some() || used != g.recv.len() || resps.len() != 1 || resps[0].code != 400 {
-                return fail(ctx, "no-400", format!("client {} (limit {} at accept) declared {}: received {:?}", c, limit, n, show(&g.recv)));
+                let kind = if err.is_none() && resps.iter().any(|r| r.code == 400) { "answered-by-more-than-the-400" } else { "no-400" };
+                return fail(ctx, kind, format!("client {} (limit {} at accept) declared {}: received {:?}", c, limit, n, show(&g.recv)));
             }
             let text = String::from_utf8_lossy(&resps[0].body).to_string();
             let has = |x: usize| {
@@ -503,6 +513,9 @@ fn server_case(ctx: &mut Ctx, l1: usize, l2: usize, n: usize) -> bool {
                 return fail(ctx, "400-text", format!("client {}: the 400 body {:?} does not report both the limit {} and the declared length {}", c, text, limit, n));
             }
             ctx.rep.count("server_400_with_both_numbers");
+            if expect {
+                ctx.rep.count("server_over_limit_with_expect_answered_by_the_400_alone");
+            }
         } else {
             if g.yielded != vec![format!("/c{}g0r0", c)] {
                 return fail(ctx, "within-limit-not-yielded", format!("client {} (limit {} at accept) declared {} <= limit; yielded {:?}, received {:?}", c, limit, n, g.yielded, show(&g.recv)));
@@ -539,8 +552,10 @@ fn server_family(ctx: &mut Ctx) {
                 if !ctx.mine(idx) {
                     continue;
                 }
-                if server_case(ctx, *l1, *l2, n) && ctx.rep.violations_total > 30 {
-                    return;
+                for expect in [false, true] {
+                    if server_case(ctx, *l1, *l2, n, expect) && ctx.rep.violations_total > 30 {
+                        return;
+                    }
                 }
             }
         }
@@ -550,7 +565,7 @@ fn server_family(ctx: &mut Ctx) {
 pub fn replay(ctx: &mut Ctx, case: &J) {
     ctx.only_case = None;
     if case.gs("family") == "server" {
-        server_case(ctx, case.gu("l1") as usize, case.gu("l2") as usize, case.gu("declared") as usize);
+        server_case(ctx, case.gu("l1") as usize, case.gu("l2") as usize, case.gu("declared") as usize, case.gu("expect") == 1);
         return;
     }
     let cuts: Vec<usize> = case.garr("cuts").iter().filter_map(|c| c.as_u64()).map(|c| c as usize).collect();
